@@ -72,11 +72,22 @@ def get(name, seed=0):
 
 
 def get_device(kind, seed=0):
+    """kind 'X' or 'X:remeshed' (the same Device object meshed finely, queried, then meshed again
+    coarsely: whatever the device caches from the first mesh must not leak into the second)"""
     import copy
 
     key = ("dev", kind, seed)
     if key not in _MESH_CACHE:
-        _MESH_CACHE[key] = make_device(kind, seed)
+        if kind.endswith(":remeshed"):
+            dev = make_device(kind.split(":")[0], seed)
+            dev.make_mesh(max_edge_length=0.5, smooth=10)
+            dev.terminal_info()
+            dev.boundary_sites()
+            _ = dev.triangulation
+            dev.make_mesh(max_edge_length=0, min_points=None)
+            _MESH_CACHE[key] = dev
+        else:
+            _MESH_CACHE[key] = make_device(kind, seed)
     return copy.deepcopy(_MESH_CACHE[key])
 
 
